@@ -1,7 +1,7 @@
 (* C20/Props.v — the property theorems for C20, and nothing else.
    GenTable.v (imported through ProofsDerive) is regenerated from the real lowering + emitter on
    every run, so the derive theorems are re-proved on the current source. *)
-From Verif Require Import Base.I64 C20.Model C20.GenTable C20.ProofsDerive C20.ProofsValue C20.ProofsJson C20.ProofsOrd.
+From Verif Require Import Base.I64 C20.Model C20.GenTable C20.ProofsDerive C20.ProofsValue C20.ProofsJson C20.ProofsOrd C20.ProofsClass.
 From Coq Require Import ZArith List Bool Lia.
 Import ListNotations.
 Open Scope Z_scope.
@@ -175,6 +175,52 @@ Theorem C20_clone_equal_independent : forall s i v,
     (forall w, nth_error (store_set s' i w) c = Some v /\ nth_error (store_set s' i w) i = Some w).
 Proof. exact clone_equal_independent. Qed.
 Print Assumptions C20_clone_equal_independent.
+
+(* K1  class hierarchies: for every class with a finite (acyclic) `extends` chain of any depth, the
+       field list that lower_class builds (collect_inherited_fields of the parent, then the own
+       fields) is the documented declaration order: the most distant ancestor's fields first, then
+       each descendant's, the class's own fields last; the chain length is enough fuel *)
+Theorem C20_inherited_fields_root_first : forall tbl c l fuel,
+  chain tbl c l -> (length l <= fuel)%nat ->
+  class_fields fuel tbl c = Some (spec_class_fields tbl l) /\
+  (forall f, (length l < f)%nat -> collect_inherited_fields f tbl c = Some (spec_class_fields tbl l)).
+Proof.
+  intros tbl c l fuel Hc Hf. split; [exact (class_fields_root_first tbl c l fuel Hc Hf)|].
+  intros f Hlt. exact (collect_root_first tbl c l Hc f Hlt).
+Qed.
+Print Assumptions C20_inherited_fields_root_first.
+
+(* K2  consequently the JSON keys of a class value are the fields in that order, and derived ordering
+       compares them in that order: the first differing field, ancestors' fields first, decides *)
+Theorem C20_class_fields_order_used : forall tbl c l fuel fs,
+  chain tbl c l -> (length l <= fuel)%nat -> class_fields fuel tbl c = Some fs ->
+  fs = spec_class_fields tbl l /\
+  (forall vals, wf_ty (TStruct fs) -> has_type (TStruct fs) (VStruct vals) ->
+     exists ms, parse_json (to_json (VStruct vals)) = JOk (JObj ms) /\
+                map fst ms = map fst (spec_class_fields tbl l)) /\
+  (forall pre pre' n n' a b post post',
+     map fst (pre ++ (n, a) :: post) = map fst (spec_class_fields tbl l) ->
+     Forall2 (fun p q => vcmp (snd p) (snd q) = Eq) pre pre' -> vcmp a b <> Eq ->
+     vcmp (VStruct (pre ++ (n, a) :: post)) (VStruct (pre' ++ (n', b) :: post')) = vcmp a b).
+Proof.
+  intros tbl c l fuel fs Hc Hf Hfs.
+  rewrite (class_fields_root_first tbl c l fuel Hc Hf) in Hfs. inversion Hfs; subst fs. clear Hfs.
+  split; [reflexivity|]. split.
+  - intros vals Hwf Hty. exact (C20_json_field_names _ vals Hwf Hty).
+  - intros pre pre' n n' a b post post' _ H Hne. exact (first_difference pre pre' n n' a b post post' H Hne).
+Qed.
+Print Assumptions C20_class_fields_order_used.
+
+(* K3  mutant-style refutation: collecting the ancestors' fields in VISIT order (parent, grandparent,
+       ...) gives a different list as soon as two ancestors declare fields *)
+Theorem C20_visit_order_refuted : exists tbl c l,
+  chain tbl c l /\ class_fields (length l) tbl c = Some (spec_class_fields tbl l) /\
+  visit_order_fields tbl l <> spec_class_fields tbl l.
+Proof.
+  destruct visit_order_refuted as [Hc [Hf [Hs [Hv Hne]]]].
+  eexists _, 3, [3; 2; 1]. split; [exact Hc|]. split; [|exact Hne]. cbn [length]. rewrite Hf, Hs. reflexivity.
+Qed.
+Print Assumptions C20_visit_order_refuted.
 
 (* the hypotheses above are satisfiable by non-trivial values *)
 Example C20_nonvacuous_json :
